@@ -93,3 +93,574 @@ theorem C03_validBond_right_left (L : Nat) (i : Int) :
 example : validSite 3 2 (-4) = some (2, -2) ∧ validSite 3 2 7 = some (1, 2) ∧ validSite 3 0 (-1) = some (2, 0)
     ∧ validSite 3 0 3 = none ∧ validSite 3 1 (-4) = none ∧ validBond 3 2 2 false = some (0, 1)
     ∧ validBond 3 0 2 false = some (3, 0) := by decide
+
+/-! ## the total charge array is never written in place -/
+
+/-- **No operation of the table writes a total charge array in place** (both kernels, all heaps and arguments): every
+in-place method either keeps `qtotal` or rebinds it to a new array. This is what makes the sharing of `qtotal` by
+`astype`, `scale_axis`, shallow copies — and hence by `MPS(...)`, `psi.copy()`, `MPO(...)` — harmless. -/
+theorem C03_calls_never_write_qtotal (cy : Bool) (h : Heap) (c : CN) (x : Args) :
+    ∀ op ∈ callOps cy h c x, op.qtSafe = true := calls_qtSafe cy h c x
+
+/-- **Refined in-place footprint.** An in-place method on `t` that does not write the total charge in place changes only
+tensors that read one of `t`'s lists, its `_labels`, `_qdata` or one of its blocks; a tensor that merely shares the total
+charge array with `t` (`aliases … = false`, while `shares … = true`) is unchanged. -/
+theorem C03_inplace_footprint_qtotal (h : Heap) (t : Ref) (u : Update) (hq : u.qtSafe = true) (r : Ref)
+    (hc : closed h r = true) (hs : aliases h r t = false) : observe (step h (.inplace t u)) r = observe h r :=
+  (inplace_keeps_q h t u hq r hc hs).1
+
+namespace TenpyModel.C03
+/-- a leg, and a tensor on it with two blocks -/
+def hE : Heap :=
+  run {} [.leg { qconj := 1, sorted := true, bunched := true, tok := 10 },
+          .derive { srcs := [], legs := .newList [.ref 0, .ref 0, .ref 0], qtotal := .fresh [0], labels := .fresh [1],
+                    qdata := .fresh [3, 0], data := .newList [.fresh 100, .fresh 101], dtype := some 0, qsorted := some false }]
+/-- `a1 = a0.astype(float, copy=True)` -/
+def hE1 : Heap := (callH true hE .astype { a := [0], n := [0], b := [true] }).1
+end TenpyModel.C03
+
+/-- `astype(copy=True)` shares the total charge array with its operand (`shares`), but no in-place method on either can
+reach the other (`aliases`); writing a block of the copy leaves the operand unchanged -/
+example : shares hE1 0 1 = true ∧ aliases hE1 0 1 = false ∧ aliases hE1 1 0 = false ∧ closed hE1 0 = true
+    ∧ observe (step hE1 (.inplace 1 { wblocks := [(0, 7)] })) 0 = observe hE1 0
+    ∧ observe (step hE1 (.inplace 1 { wblocks := [(0, 7)] })) 1 ≠ observe hE1 1 := by decide +kernel
+
+/-! ## constructors and copies -/
+
+
+/-- **`MPS(sites, Bs, SVs, bc, form)` and `psi.copy()` change nothing that exists** — whether they succeed or raise:
+every closed tensor (in particular the caller's `Bs`), every Python list and singular-value array allocated before
+(the caller's `Bs`, `SVs`, `form` lists), every closed MPS and MPO has the same observation afterwards. -/
+theorem C03_mps_init_frame (cy : Bool) (n : Net) (sites : List Nat) (Bs SVs : Ref) (bc : Nat) (form : FormArg)
+    (ts : List TrHint) (sane : Bool) :
+    let n' := (mpsInit cy n sites Bs SVs bc form ts sane).1
+    (∀ r, closed n.h r = true → observe n'.h r = observe n.h r)
+      ∧ (∀ q, closedMps n q = true → obsMps n' q = obsMps n q)
+      ∧ (∀ H, closedMpo n H = true → obsMpo n' H = obsMpo n H)
+      ∧ (∀ r, r < n.tl.length → n'.tlist r = n.tlist r) ∧ (∀ r, r < n.sl.length → n'.slist r = n.slist r)
+      ∧ (∀ r, r < n.vl.length → n'.vlist r = n.vlist r) ∧ (∀ r, r < n.sb.length → n'.sbuf r = n.sbuf r) := by
+  have x := mpsInit_next cy n sites Bs SVs bc form ts sane
+  exact ⟨fun r hc => (x.h.obs r hc).1, fun q hq => (x.mpsObs q hq).1, fun H hH => (x.mpoObs H hH).1,
+    fun r hr => by simp only [Net.tlist, x.tl r hr], fun r hr => by simp only [Net.slist, x.sl r hr],
+    fun r hr => by simp only [Net.vlist, x.vl r hr], fun r hr => by simp only [Net.sbuf, x.sb r hr]⟩
+
+/-- `psi.copy()` is the constructor on `psi`'s own lists. -/
+theorem C03_mps_copy_frame (cy : Bool) (n : Net) (p : Ref) (sane : Bool) :
+    let n' := (mpsCopy cy n p sane).1
+    (∀ r, closed n.h r = true → observe n'.h r = observe n.h r) ∧ (∀ q, closedMps n q = true → obsMps n' q = obsMps n q)
+      ∧ (∀ H, closedMpo n H = true → obsMpo n' H = obsMpo n H) := by
+  have x := C03_mps_init_frame cy n (n.vlist (n.mpsO p).sites) (n.mpsO p).B (n.mpsO p).S (n.mpsO p).bc (.list (n.mpsO p).form) [] sane
+  exact ⟨x.1, x.2.1, x.2.2.1⟩
+
+/-- **A new MPS owns its containers.** After a successful `MPS(...)`: the object is new; its `_B`, `_S`, `form`, `sites`
+lists are new list objects (never the caller's, even when the caller passed lists); every stored singular-value array is
+a new array; every stored tensor is a new tensor object, and — whether or not `itranspose` had to re-order its legs — no
+in-place method on a stored tensor can reach any tensor that existed before (`aliases = false`: all its lists, `_labels`,
+`_qdata` and blocks are new; only the never-written total charge array is the operand's). -/
+theorem C03_mps_init_owns {cy : Bool} {n : Net} {sites : List Nat} {Bs SVs : Ref} {bc : Nat} {form : FormArg}
+    {ts : List TrHint} {sane : Bool} {n' : Net} {p : Nat} (e : mpsInit cy n sites Bs SVs bc form ts sane = (n', .ok p)) :
+    p = n.mps.length ∧ (n'.mpsO p).B = n.tl.length ∧ (n'.mpsO p).S = n.sl.length ∧ (n'.mpsO p).sites = n.vl.length
+      ∧ (n'.mpsO p).form = n.vl.length + 1 ∧ (n'.mpsO p).bc = bc
+      ∧ n'.vlist (n'.mpsO p).sites = sites ∧ (n'.tlist (n'.mpsO p).B).length = sites.length
+      ∧ (∀ r : Nat, some r ∈ n'.slist (n'.mpsO p).S → n.sb.length ≤ r)
+      ∧ (∀ b ∈ n'.tlist (n'.mpsO p).B, n.h.arrs.length ≤ b)
+      ∧ (∀ b ∈ n'.tlist (n'.mpsO p).B, ∀ r, closed n.h r = true → aliases n'.h r b = false) := by
+  obtain ⟨h', newBs, sbNew, S', forms, hcp, _, rfl, rfl, hlen, hS⟩ := mpsInit_ok e
+  obtain ⟨hf, hge, _⟩ := copyTensors_frame cy _ true _ _ _ _ _ hcp
+  simp only [Net.mpsO, Net.tlist, Net.vlist, Net.slist, List.getElem?_concat_length, Option.getD_some]
+  refine ⟨trivial, trivial, trivial, trivial, trivial, trivial, ?_, ?_, ?_, ?_, ?_⟩
+  · simp
+  · simp [hlen]
+  · intro r hr
+    exact (hS r hr).1
+  · intro b hb
+    exact hge b hb
+  · intro b hb r hc
+    have fr := (copyTensors_fresh' cy _ true _ _ _ _ _ hcp).2 b hb
+    obtain ⟨_, _, ml, mb⟩ := hf.obs r hc
+    exact freshT_not_aliased fr hc ml mb
+
+/-- … in particular for `psi.copy()`: the copy shares no list, no singular-value array and no writable tensor container
+with anything that existed — an in-place method on one of its stored tensors cannot change the original MPS. -/
+theorem C03_mps_copy_independent {cy : Bool} {n : Net} {p : Ref} {sane : Bool} {n' : Net} {p' : Nat}
+    (e : mpsCopy cy n p sane = (n', .ok p')) (hc : closedMps n p = true) :
+    (n'.mpsO p').B ≠ (n.mpsO p).B ∧ (n'.mpsO p').S ≠ (n.mpsO p).S ∧ (n'.mpsO p').form ≠ (n.mpsO p).form
+      ∧ (n'.mpsO p').sites ≠ (n.mpsO p).sites ∧ (n'.mpsO p').form ≠ (n.mpsO p).sites ∧ (n'.mpsO p').sites ≠ (n.mpsO p).form
+      ∧ ∀ b ∈ n'.tlist (n'.mpsO p').B, ∀ u, u.qtSafe = true →
+          obsMps { n' with h := step n'.h (.inplace b u) } p = obsMps n p := by
+  obtain ⟨c1, c2, c3, c4, c5, c6, c7⟩ := closedMps_parts hc
+  obtain ⟨_, o1, o2, o3, o4, _, _, _, _, _, hal⟩ := C03_mps_init_owns e
+  have x := mpsInit_next cy n (n.vlist (n.mpsO p).sites) (n.mpsO p).B (n.mpsO p).S (n.mpsO p).bc (.list (n.mpsO p).form) [] sane
+  have en : (mpsInit cy n (n.vlist (n.mpsO p).sites) (n.mpsO p).B (n.mpsO p).S (n.mpsO p).bc (.list (n.mpsO p).form) [] sane).1 = n' := by
+    have := congrArg Prod.fst e; simpa [mpsCopy] using this
+  rw [en] at x
+  refine ⟨ne_of_eq_lt o1 c2, ne_of_eq_lt o2 c3, ne_of_eq_lt1 o4 c4, ne_of_eq_lt o3 c5, ne_of_eq_lt1 o4 c5, ne_of_eq_lt o3 c4, ?_⟩
+  intro b hb u hu
+  obtain ⟨ob, cl⟩ := x.mpsObs p hc
+  rw [← ob]
+  apply obsMps_of_heap
+  intro r hr
+  obtain ⟨_, _, _, _, _, c6', _⟩ := closedMps_parts cl
+  have hcr : closed n.h r = true := by
+    have em : n'.mpsO p = n.mpsO p := by simp only [Net.mpsO, x.mps p c1]
+    have eB : n'.tlist (n.mpsO p).B = n.tlist (n.mpsO p).B := by simp only [Net.tlist, x.tl _ c2]
+    rw [em, eB] at hr
+    exact c6 r hr
+  exact (inplace_keeps_q n'.h b u hu r (c6' r hr) (hal b hb r hcr)).1
+
+/-! ## accessors -/
+
+/-- **Accessors never change anything.** `get_B(i, form, copy, label_p)` and `get_W(i, copy)` — for all arguments, whether
+they return the stored tensor, a converted copy, or raise — leave every closed tensor, MPS and MPO observably unchanged
+(`get_SL/SR`, `get_IdL/IdR` are functions of the net without any effect by construction). -/
+theorem C03_accessors_frame (cy : Bool) (n : Net) (p : Ref) (i : Int) (form : Form) (copy labelP fitL fitR : Bool)
+    (H : Ref) (j : Int) (cp : Bool) :
+    Unchanged n (getB cy n p i form copy labelP fitL fitR).1 ∧ Unchanged n (getW cy n H j cp).1 :=
+  ⟨(getB_next cy n p i form copy labelP fitL fitR).unchanged, (getW_next cy n H j cp).unchanged⟩
+
+/-- **`get_B(i, form, copy=False)` hands out the stored tensor itself** when no conversion is needed (`form=None` or the
+stored form) — the documented view: "it should not be modified in place after". Nothing is allocated. -/
+theorem C03_getB_returns_stored (cy : Bool) (n : Net) (p : Ref) (i : Int) (form : Form) (j : Nat) (q : Int) (B0 : Ref)
+    (hv : validSite (mpsL n p) (n.mpsO p).bc i = some (j, q)) (hB : (n.tlist (n.mpsO p).B)[j]? = some B0)
+    (hf : form = none ∨ Form.dec ((n.vlist (n.mpsO p).form).getD j 0) = form) :
+    getB cy n p i form false false = (n, .ok B0) := by
+  rcases hf with hf | hf
+  · subst hf; simp [getB, hv, hB]
+  · cases form with
+    | none => simp [getB, hv, hB]
+    | some f =>
+      have hf' : Form.dec ((n.vlist (n.mpsO p).form)[j]?.getD 0) = some f := by simpa using hf
+      simp [getB, hv, hB, hf']
+
+/-- **`get_B(i, copy=True)` returns an independent tensor**: a new tensor object none of whose writable containers is
+read by any tensor that existed (whatever form conversion follows the copy). -/
+theorem C03_getB_copy_independent (cy : Bool) (n : Net) (p : Ref) (i : Int) (form : Form) (fitL fitR : Bool) (n' : Net)
+    (c : Nat) (e : getB cy n p i form true false fitL fitR = (n', .ok c)) :
+    n.h.arrs.length ≤ c ∧ ∀ r, closed n.h r = true → aliases n'.h r c = false := by
+  have key : ∀ (h2 : Heap) (c2 : Ref), FreshT n.h h2 c2 → HFrame n.h h2 →
+      n.h.arrs.length ≤ c2 ∧ ∀ r, closed n.h r = true → aliases h2 r c2 = false := by
+    intro h2 c2 f hf
+    refine ⟨f.ge, fun r hc => ?_⟩
+    obtain ⟨_, _, ml, mb⟩ := hf.obs r hc
+    exact freshT_not_aliased f hc ml mb
+  unfold getB at e
+  simp only [ite_true, Bool.false_eq_true, ite_false, callH_copy] at e
+  split at e
+  · simp [eValue] at e
+  · split at e
+    · simp [eIndex] at e
+    · rename_i B0 _
+      have f0 : FreshT n.h (step n.h (.derive (copyD n.h B0))) n.h.arrs.length := by
+        apply freshT_derive
+        have := copyD_isolated n.h B0
+        simp only [Derive.isolated, Bool.and_eq_true] at this
+        simp only [Derive.semiIsolated, Bool.and_eq_true]
+        exact ⟨⟨⟨this.1.1.1.1, this.1.1.2⟩, this.1.2⟩, this.2⟩
+      have hf0 : HFrame n.h (step n.h (.derive (copyD n.h B0))) := hframe_derive _ _
+      split at e
+      · simp only [Prod.mk.injEq, Res.ok.injEq] at e
+        obtain ⟨rfl, rfl⟩ := e
+        exact key _ _ f0 hf0
+      · split at e
+        · simp only [Prod.mk.injEq, Res.ok.injEq] at e
+          obtain ⟨rfl, rfl⟩ := e
+          exact key _ _ f0 hf0
+        · split at e
+          · simp [eValue] at e
+          · split at e
+            · simp at e
+            · rename_i r3 e3
+              obtain ⟨hf3, k3, _⟩ := scaleBoth_frame _ _ _ _ _ _ _ _ _ _ _ r3.1 r3.2 e3
+              simp only [Prod.mk.injEq, Res.ok.injEq] at e
+              obtain ⟨rfl, rfl⟩ := e
+              exact key _ _ (k3 _ f0) (hf0.trans hf3)
+
+/-! ## in-place methods of an MPS change only that MPS -/
+
+/-- **`set_B(i, B, form)` footprint** (success or exception, any index): every tensor other than `B` itself is unchanged
+(`B` may be re-ordered by `itranspose` — "no copy is made"); every MPO is unchanged; every other MPS `q` that does not
+hold one of `p`'s `_B` / `form` list objects and does not store `B` itself (or when `B` needed no transposition) is
+unchanged. -/
+theorem C03_setB_footprint (cy : Bool) (n : Net) (p : Ref) (i : Int) (B : Ref) (form : Form) (t : TrHint) :
+    let n' := (setB cy n p i B form t).1
+    (∀ r, closed n.h r = true → r ≠ B → observe n'.h r = observe n.h r)
+      ∧ (∀ q, closedMps n q = true → q ≠ p → (n.mpsO q).B ≠ (n.mpsO p).B → (n.mpsO q).form ≠ (n.mpsO p).form →
+          (n.mpsO q).sites ≠ (n.mpsO p).form → (B ∉ n.tlist (n.mpsO q).B ∨ isIdPerm t.perm = true) → obsMps n' q = obsMps n q) := by
+  intro n'
+  have hn' : n' = (setB cy n p i B form t).1 := rfl
+  clear_value n'
+  obtain ⟨sm, sv, st, sh, ssb, ssl, _⟩ := setB_shape cy n p i B form t
+  rw [← hn'] at sm sv st sh ssb ssl
+  have hheap : ∀ r, closed n.h r = true → (r ≠ B ∨ isIdPerm t.perm = true) → observe n'.h r = observe n.h r := by
+    intro r hc hne
+    rcases sh with e | e
+    · rw [show n'.h = n.h from e]
+    · rw [show n'.h = _ from e]
+      rcases hne with hne | hid
+      · exact ((transposeH_frame cy n.h B t).1 r hc hne).1
+      · rw [transposeH_id cy n.h B t hid]
+  refine ⟨fun r hc hne => hheap r hc (Or.inl hne), ?_⟩
+  intro q hc hqp hB hf hs hst
+  obtain ⟨c1, c2, c3, c4, c5, c6, c7⟩ := closedMps_parts hc
+  have em : n'.mpsO q = n.mpsO q := by simp only [Net.mpsO, either_get sm q hqp]
+  refine obsMps_congr q em ?_ ?_ ?_ ?_ ?_ ?_
+  · simp only [Net.tlist, either_get st _ hB]
+  · simp only [Net.slist, show n'.sl = n.sl from ssl]
+  · simp only [Net.vlist, either_get sv _ hf]
+  · simp only [Net.vlist, either_get sv _ hs]
+  · intro r _; simp only [Net.sbuf, show n'.sb = n.sb from ssb]
+  · intro b hb
+    apply hheap b (c6 b hb)
+    rcases hst with h1 | h2
+    · left; intro e; exact h1 (e ▸ hb)
+    · right; exact h2
+
+/-- **`set_SL` / `set_SR` footprint**: the heap, every MPO and every MPS that does not hold `p`'s `_S` list object are
+unchanged (the array itself is stored without a copy — "No copy is made!"). -/
+theorem C03_setS_footprint (n : Net) (p : Ref) (i : Int) (left : Bool) (s : Option Ref) :
+    let n' := (setS n p i left s).1
+    n'.h = n.h ∧ (∀ H, obsMpo n' H = obsMpo n H)
+      ∧ (∀ q, (n.mpsO q).S ≠ (n.mpsO p).S → obsMps n' q = obsMps n q) := by
+  intro n'
+  have hn' : n' = (setS n p i left s).1 := rfl
+  clear_value n'
+  obtain ⟨ssl, sh, stl, ssb, svl, sm, so⟩ := setS_shape n p i left s
+  rw [← hn'] at ssl sh stl ssb svl sm so
+  have eh : n'.h = n.h := sh
+  refine ⟨eh, ?_, ?_⟩
+  · intro H
+    exact obsMpo_congr H (by simp only [Net.mpoO, show n'.mpo = n.mpo from so]) (by simp only [Net.tlist, show n'.tl = n.tl from stl])
+      (by simp only [Net.vlist, show n'.vl = n.vl from svl]) (by simp only [Net.vlist, show n'.vl = n.vl from svl])
+      (by simp only [Net.vlist, show n'.vl = n.vl from svl]) (fun _ _ => by rw [eh])
+  · intro q hS
+    exact obsMps_congr q (by simp only [Net.mpsO, show n'.mps = n.mps from sm]) (by simp only [Net.tlist, show n'.tl = n.tl from stl])
+      (by simp only [Net.slist, either_get ssl _ hS]) (by simp only [Net.vlist, show n'.vl = n.vl from svl])
+      (by simp only [Net.vlist, show n'.vl = n.vl from svl]) (fun _ _ => by simp only [Net.sbuf, show n'.sb = n.sb from ssb])
+      (fun _ _ => by rw [eh])
+
+/-- **`enlarge_mps_unit_cell` / `roll_mps_unit_cell` only rebind**: the tensor heap is untouched and EVERY other closed MPS
+is unchanged — unconditionally, even one that holds the very list objects of `p` (they are replaced, not written). -/
+theorem C03_mps_enlarge_roll_footprint (n : Net) (p : Ref) (factor shift : Int) (sane : Bool) :
+    (mpsEnlarge n p factor sane).1.h = n.h ∧ (mpsRoll n p shift).1.h = n.h
+      ∧ ∀ q, closedMps n q = true → q ≠ p →
+          obsMps (mpsEnlarge n p factor sane).1 q = obsMps n q ∧ obsMps (mpsRoll n p shift).1 q = obsMps n q := by
+  refine ⟨?_, ?_, ?_⟩
+  · unfold mpsEnlarge; simp only; repeat' split
+    all_goals rfl
+  · unfold mpsRoll; simp only; repeat' split
+    all_goals rfl
+  · intro q hc hqp
+    constructor
+    · unfold mpsEnlarge; simp only; repeat' split
+      all_goals first | rfl | exact rebind_mps_next n p _ _ _ _ q hqp hc
+    · unfold mpsRoll; simp only; repeat' split
+      all_goals first | rfl | exact rebind_mps_next n p _ _ _ _ q hqp hc
+
+/-- **Periodic images.** After `enlarge_mps_unit_cell(f)` on an infinite MPS the observation is the old one repeated `f`
+times (same tensors, singular values, forms, sites at `j` and `j + L`), held in NEW list objects. -/
+theorem C03_mps_enlarge_obs (n : Net) (p : Ref) (factor : Int) (sane : Bool) (hp : p < n.mps.length) (hf : 1 < factor)
+    (hbc : (n.mpsO p).bc = 2) :
+    let n' := (mpsEnlarge n p factor sane).1
+    (obsMps n' p).B = repeatL factor.toNat (obsMps n p).B ∧ (obsMps n' p).S = repeatL factor.toNat (obsMps n p).S
+      ∧ (obsMps n' p).form = repeatL factor.toNat (obsMps n p).form ∧ (obsMps n' p).sites = repeatL factor.toNat (obsMps n p).sites
+      ∧ (n'.mpsO p).B = n.tl.length ∧ (n'.mpsO p).S = n.sl.length ∧ n'.h = n.h := by
+  have h1 : ¬ factor ≤ 1 := by omega
+  have mapRep : ∀ {α β} (f : α → β) (k : Nat) (l : List α), (repeatL k l).map f = repeatL k (l.map f) := by
+    intro α β f k l
+    simp [repeatL, List.map_flatten, List.map_replicate]
+  simp only [mpsEnlarge, h1, ite_false, hbc, bne_self_eq_false, Bool.false_eq_true]
+  simp only [obsMps, Net.mpsO, Net.tlist, Net.slist, Net.vlist, List.getElem?_set_self hp, Option.getD_some,
+    List.getElem?_concat_length, mapRep]
+  refine ⟨mapRep _ _ _, ?_, ?_, ?_, trivial, trivial, trivial⟩
+  · rw [mapRep]; rfl
+  · rw [List.getElem?_append_right (by simp)]; simp
+  · rw [List.getElem?_append_right (by simp)]; simp
+
+/-- **`set_B` then `get_B`**: after a successful `set_B(i, B, form)` the accessor `get_B(i, form=None)` returns `B`
+itself (the very object, no copy), for every valid index `i` (also negative / outside the unit cell). -/
+theorem C03_setB_getB (cy : Bool) (n : Net) (p : Ref) (i : Int) (B : Ref) (form : Form) (t : TrHint)
+    (hp : p < n.mps.length) (hB : (n.mpsO p).B < n.tl.length) (hd : (n.mpsO p).form ≠ (n.mpsO p).sites)
+    (hok : (setB cy n p i B form t).2 = .none_) :
+    getB cy (setB cy n p i B form t).1 p i none false false = ((setB cy n p i B form t).1, .ok B) := by
+  cases hv : validSite (mpsL n p) (n.mpsO p).bc i with
+  | none => simp [setB, hv, eValue] at hok
+  | some jq =>
+    obtain ⟨j, q⟩ := jq
+    by_cases h1 : j ≥ (n.vlist (n.mpsO p).form).length
+    · simp [setB, hv, h1, eIndex] at hok
+    · by_cases h2 : t.ok = true
+      · by_cases h3 : j ≥ (n.tlist (n.mpsO p).B).length
+        · simp [setB, hv, h1, h2, h3, eIndex] at hok
+        · have eS : (setB cy n p i B form t).1 =
+              { n with h := transposeH cy n.h B t, tl := n.tl.set (n.mpsO p).B ((n.tlist (n.mpsO p).B).set j B),
+                       vl := n.vl.set (n.mpsO p).form ((n.vlist (n.mpsO p).form).set j form.enc),
+                       mps := n.mps.set p { (n.mpsO p) with dtype := max (n.mpsO p).dtype (n.h.arr B).dtype } } := by
+            simp [setB, hv, h1, h2, h3]
+          generalize (setB cy n p i B form t).1 = m at eS ⊢
+          have e_mps : m.mps = n.mps.set p { (n.mpsO p) with dtype := max (n.mpsO p).dtype (n.h.arr B).dtype } := by rw [eS]
+          have e_vl : m.vl = n.vl.set (n.mpsO p).form ((n.vlist (n.mpsO p).form).set j form.enc) := by rw [eS]
+          have e_tl : m.tl = n.tl.set (n.mpsO p).B ((n.tlist (n.mpsO p).B).set j B) := by rw [eS]
+          have em : m.mpsO p = { (n.mpsO p) with dtype := max (n.mpsO p).dtype (n.h.arr B).dtype } := by
+            simp only [Net.mpsO, e_mps, List.getElem?_set_self hp, Option.getD_some]
+          have hj : j < (n.tlist (n.mpsO p).B).length := by omega
+          apply C03_getB_returns_stored (j := j) (q := q)
+          · simp only [mpsL, em, Net.vlist, e_vl, List.getElem?_set_ne hd]
+            exact hv
+          · simp only [em, Net.tlist, e_tl, List.getElem?_set_self hB, Option.getD_some]
+            exact List.getElem?_set_self hj
+          · exact Or.inl rfl
+      · simp [setB, hv, h1, h2, eKey] at hok
+
+/-! ## MPO -/
+
+/-- **`MPO(sites, Ws, bc, IdL, IdR)` and `H.copy()` change nothing that exists** (success or exception). -/
+theorem C03_mpo_init_frame (cy : Bool) (n : Net) (sites : List Nat) (Ws : Ref) (bc : Nat) (IdL IdR : IdArg) (sane : Bool)
+    (H : Ref) (own : Bool) :
+    Unchanged n (mpoInit cy n sites Ws bc IdL IdR sane).1 ∧ Unchanged n (mpoCopy n H own).1 :=
+  ⟨(mpoInit_next cy n sites Ws bc IdL IdR sane).unchanged, (mpoCopy_next n H own).unchanged⟩
+
+/-- **A new MPO owns its containers.** After a successful `MPO(...)`: `_W`, `IdL`, `IdR`, `sites` are new list objects —
+`_get_Id` copies a list argument (`list(Id)`) and always yields `L + 1` entries — and every stored tensor is a new tensor
+none of whose writable containers is read by a tensor that existed (`astype(copy=True)`). -/
+theorem C03_mpo_init_owns {cy : Bool} {n : Net} {sites : List Nat} {Ws : Ref} {bc : Nat} {IdL IdR : IdArg} {sane : Bool}
+    {n' : Net} {H : Nat} (e : mpoInit cy n sites Ws bc IdL IdR sane = (n', .ok H)) :
+    H = n.mpo.length ∧ (n'.mpoO H).W = n.tl.length ∧ (n'.mpoO H).sites = n.vl.length ∧ (n'.mpoO H).IdL = n.vl.length + 1
+      ∧ (n'.mpoO H).IdR = n.vl.length + 2
+      ∧ (n'.vlist (n'.mpoO H).IdL).length = sites.length + 1 ∧ (n'.vlist (n'.mpoO H).IdR).length = sites.length + 1
+      ∧ (∀ l, IdL = .list l → n'.vlist (n'.mpoO H).IdL = n.vlist l)
+      ∧ (∀ b ∈ n'.tlist (n'.mpoO H).W, n.h.arrs.length ≤ b ∧ ∀ r, closed n.h r = true → aliases n'.h r b = false) := by
+  obtain ⟨h', newWs, idl, idr, hcp, hl, hr, rfl, rfl⟩ := mpoInit_ok e
+  obtain ⟨hf, hge, _⟩ := copyTensors_frame cy _ false _ _ _ _ _ hcp
+  simp only [Net.mpoO, Net.tlist, Net.vlist, List.getElem?_concat_length, Option.getD_some]
+  refine ⟨trivial, trivial, trivial, trivial, trivial, ?_, ?_, ?_, ?_⟩
+  · rw [List.getElem?_append_right (by simp)]; simp [getId_length hl]
+  · rw [List.getElem?_append_right (by simp)]; simp [getId_length hr]
+  · intro l hl'
+    rw [List.getElem?_append_right (by simp)]
+    subst hl'
+    simp only [getId] at hl
+    split at hl
+    · cases hl
+    · simp only [Option.some.injEq] at hl
+      simp [← hl, Net.vlist]
+  · intro b hb
+    refine ⟨hge b hb, fun r hc => ?_⟩
+    have fr := (copyTensors_fresh cy _ false _ _ _ _ _ (Or.inl rfl) hcp).2 b hb
+    obtain ⟨_, _, ml, mb⟩ := hf.obs r hc
+    exact freshT_not_aliased fr hc ml mb
+
+/-- **`H.copy()` is independent at the list level** (repaired `MPO.copy`, commit 28d1973): the copy observes the same as
+`H`, and `set_W`, assignments to `IdL` / `IdR` entries and `enlarge_mps_unit_cell` on the copy leave `H` unchanged —
+and vice versa. (The stored tensors are shared: it is a shallow copy.) -/
+theorem C03_mpo_copy_independent (n : Net) (H : Ref) (hc : closedMpo n H = true) :
+    let n1 := (mpoCopy n H).1
+    let H' := n.mpo.length
+    obsMpo n1 H' = obsMpo n H ∧ closedMpo n1 H' = true
+      ∧ (∀ i W, obsMpo (setW n1 H' i W).1 H = obsMpo n H ∧ obsMpo (setW n1 H i W).1 H' = obsMpo n H)
+      ∧ (∀ left b v, obsMpo (editId n1 H' left b v).1 H = obsMpo n H ∧ obsMpo (editId n1 H left b v).1 H' = obsMpo n H)
+      ∧ (∀ f sane, obsMpo (mpoEnlarge n1 H' f sane).1 H = obsMpo n H ∧ obsMpo (mpoEnlarge n1 H f sane).1 H' = obsMpo n H) := by
+  intro n1 H'
+  obtain ⟨c1, c2, c3, c4, c5, c6⟩ := closedMpo_parts hc
+  have hn1 : n1 = { n with tl := n.tl ++ [n.tlist (n.mpoO H).W],
+                           vl := n.vl ++ [n.vlist (n.mpoO H).sites, n.vlist (n.mpoO H).IdL, n.vlist (n.mpoO H).IdR],
+                           mpo := n.mpo ++ [MpoObj.mk n.tl.length (n.vl.length + 1) (n.vl.length + 2) n.vl.length (n.mpoO H).bc
+                                              (n.mpoO H).dtype] } := by
+    simp [n1, mpoCopy]
+  have eH' : n1.mpoO H' = MpoObj.mk n.tl.length (n.vl.length + 1) (n.vl.length + 2) n.vl.length (n.mpoO H).bc (n.mpoO H).dtype := by
+    rw [hn1]; simp [Net.mpoO, H']
+  have eH : n1.mpoO H = n.mpoO H := by rw [hn1]; simp only [Net.mpoO, get_append_old _ _ _ c1]
+  have x := mpoCopy_next n H true
+  obtain ⟨oH, cH⟩ := x.mpoObs H hc
+  have eW : n1.tlist n.tl.length = n.tlist (n.mpoO H).W := by rw [hn1]; simp [Net.tlist]
+  have eS : n1.vlist n.vl.length = n.vlist (n.mpoO H).sites := by rw [hn1]; simp [Net.vlist]
+  have eL : n1.vlist (n.vl.length + 1) = n.vlist (n.mpoO H).IdL := by
+    rw [hn1]; simp only [Net.vlist]; rw [List.getElem?_append_right (by simp)]; simp
+  have eR : n1.vlist (n.vl.length + 2) = n.vlist (n.mpoO H).IdR := by
+    rw [hn1]; simp only [Net.vlist]; rw [List.getElem?_append_right (by simp)]; simp
+  have eh : n1.h = n.h := by rw [hn1]
+  have o1 : obsMpo n1 H' = obsMpo n H := by
+    simp only [obsMpo, eH', eW, eS, eL, eR, eh]
+  have cl1 : closedMpo n1 H' = true := by
+    simp only [closedMpo, eH', eW, eh, Bool.and_eq_true, decide_eq_true_eq, List.all_eq_true]
+    rw [hn1]
+    refine ⟨⟨⟨⟨⟨?_, ?_⟩, ?_⟩, ?_⟩, ?_⟩, c6⟩ <;> simp [H']
+  -- the eight list references involved are pairwise different where it matters
+  have dW : (n1.mpoO H).W ≠ (n1.mpoO H').W := by rw [eH, eH']; exact (ne_of_eq_lt rfl c2).symm
+  have generic : ∀ (m : Net) (A Bq : Ref), m.h = n1.h → m.sb = n1.sb → m.sl = n1.sl → m.mps = n1.mps →
+      m.mpoO Bq = n1.mpoO Bq → m.tlist (n1.mpoO Bq).W = n1.tlist (n1.mpoO Bq).W →
+      m.vlist (n1.mpoO Bq).IdL = n1.vlist (n1.mpoO Bq).IdL → m.vlist (n1.mpoO Bq).IdR = n1.vlist (n1.mpoO Bq).IdR →
+      m.vlist (n1.mpoO Bq).sites = n1.vlist (n1.mpoO Bq).sites → A = A → obsMpo m Bq = obsMpo n1 Bq := by
+    intro m A Bq e1 _ _ _ e5 e6 e7 e8 e9 _
+    exact obsMpo_congr Bq e5 e6 e7 e8 e9 (fun _ _ => by rw [e1])
+  refine ⟨o1, cl1, ?_, ?_, ?_⟩
+  · intro i W
+    constructor
+    · obtain ⟨st, sh, ssl, ssb, svl, sm, so⟩ := setW_shape n1 H' i W
+      rw [← oH]
+      exact generic _ 0 H sh ssb ssl sm (by simp only [Net.mpoO, so]) (by simp only [Net.tlist, either_get st _ dW])
+        (by simp only [Net.vlist, svl]) (by simp only [Net.vlist, svl]) (by simp only [Net.vlist, svl]) rfl
+    · obtain ⟨st, sh, ssl, ssb, svl, sm, so⟩ := setW_shape n1 H i W
+      rw [← o1]
+      exact generic _ 0 H' sh ssb ssl sm (by simp only [Net.mpoO, so]) (by simp only [Net.tlist, either_get st _ dW.symm])
+        (by simp only [Net.vlist, svl]) (by simp only [Net.vlist, svl]) (by simp only [Net.vlist, svl]) rfl
+  · intro left b v
+    constructor
+    · obtain ⟨sv, sh, stl, ssl, ssb, sm, so⟩ := editId_shape n1 H' left b v
+      rw [← oH]
+      have ne : ∀ x, x < n.vl.length → x ≠ (if left = true then (n1.mpoO H').IdL else (n1.mpoO H').IdR) := by
+        intro x hx; rw [eH']; split <;> exact fun e => by simp only at e; omega
+      exact generic _ 0 H sh ssb ssl sm (by simp only [Net.mpoO, so]) (by simp only [Net.tlist, stl])
+        (by simp only [Net.vlist, either_get sv _ (ne (n1.mpoO H).IdL (by rw [eH]; exact c3))])
+        (by simp only [Net.vlist, either_get sv _ (ne (n1.mpoO H).IdR (by rw [eH]; exact c4))])
+        (by simp only [Net.vlist, either_get sv _ (ne (n1.mpoO H).sites (by rw [eH]; exact c5))]) rfl
+    · obtain ⟨sv, sh, stl, ssl, ssb, sm, so⟩ := editId_shape n1 H left b v
+      rw [← o1]
+      have ne : ∀ x, n.vl.length ≤ x → x ≠ (if left = true then (n1.mpoO H).IdL else (n1.mpoO H).IdR) := by
+        intro x hx; rw [eH]
+        split
+        · intro e; have a := c3; rw [← e] at a; exact Nat.not_lt.2 hx a
+        · intro e; have a := c4; rw [← e] at a; exact Nat.not_lt.2 hx a
+      exact generic _ 0 H' sh ssb ssl sm (by simp only [Net.mpoO, so]) (by simp only [Net.tlist, stl])
+        (by simp only [Net.vlist, either_get sv _ (ne (n1.mpoO H').IdL (by rw [eH']; show n.vl.length ≤ n.vl.length + 1; omega))])
+        (by simp only [Net.vlist, either_get sv _ (ne (n1.mpoO H').IdR (by rw [eH']; show n.vl.length ≤ n.vl.length + 2; omega))])
+        (by simp only [Net.vlist, either_get sv _ (ne (n1.mpoO H').sites (by rw [eH']; exact Nat.le_refl _))]) rfl
+  · intro f sane
+    have hne : H ≠ H' := Nat.ne_of_lt c1
+    have cl1' : closedMpo n1 H = true := cH
+    have key : ∀ (Ht Hq : Ref), Ht ≠ Hq → closedMpo n1 Hq = true → obsMpo (mpoEnlarge n1 Ht f sane).1 Hq = obsMpo n1 Hq := by
+      intro Ht Hq hne hq
+      obtain ⟨d1, d2, d3, d4, d5, d6⟩ := closedMpo_parts hq
+      unfold mpoEnlarge
+      simp only
+      repeat' split
+      all_goals first
+        | rfl
+        | (refine obsMpo_congr Hq ?_ ?_ ?_ ?_ ?_ (fun _ _ => rfl)
+           · simp only [Net.mpoO, List.getElem?_set_ne hne]
+           · simp only [Net.tlist, get_append_old _ _ _ d2]
+           · simp only [Net.vlist, get_append_old _ _ _ d3]
+           · simp only [Net.vlist, get_append_old _ _ _ d4]
+           · simp only [Net.vlist, get_append_old _ _ _ d5])
+    exact ⟨(key H' H hne.symm cl1').trans oH, (key H H' hne cl1).trans o1⟩
+
+/-! ## non-vacuity: a concrete net -/
+
+namespace TenpyModel.C03
+/-- two caller-owned tensors (#0, #1) on one leg, a caller-owned tensor list `[#0, #1]`, three singular-value arrays in a
+caller-owned list, a caller-owned form list -/
+def nE : Net :=
+  { h := step hE (.derive { srcs := [], legs := .newList [.ref 0, .ref 0, .ref 0], qtotal := .fresh [0], labels := .fresh [1],
+                             qdata := .fresh [0], data := .newList [.fresh 200], dtype := some 0, qsorted := some true }),
+    tl := [[0, 1]], sb := [[3], [4], [5]], sl := [[some 0, some 1, some 2]], vl := [[11, 11]] }
+/-- `psi = MPS(sites, Bs, SVs, 'infinite', form)`, `phi = psi.copy()` -/
+def nE1 : Net := (mpsInit true nE [7, 7] 0 0 2 (.list 0) [] true).1
+def nE2 : Net := (mpsCopy true nE1 0).1
+/-- `H = MPO(sites, Ws, 'infinite', IdL=[0,0,0] (caller's list), IdR=-1)`, `K = H.copy()` -/
+def nM : Net := { nE with vl := [[1, 1, 1]] }
+def nM1 : Net := (mpoInit true nM [7, 7] 0 2 (.list 0) (.scalar 2) true).1
+def nM2 : Net := (mpoCopy nM1 0).1
+def nM2bad : Net := (mpoCopy nM1 0 false).1
+end TenpyModel.C03
+
+/-- the constructor succeeds on the concrete net; the new MPS is closed, has its own lists / arrays / tensors; the caller's
+tensors, lists and arrays are unchanged; its copy likewise -/
+example : (mpsInit true nE [7, 7] 0 0 2 (.list 0) [] true).2 = .ok 0 ∧ closedMps nE1 0 = true
+    ∧ (nE1.mpsO 0).B = 1 ∧ nE1.tlist 1 = [2, 3] ∧ nE1.tlist 0 = [0, 1] ∧ nE1.slist 1 = [some 3, some 4] ∧ nE1.sbuf 3 = [3]
+    ∧ nE1.vlist 2 = [11, 11] ∧ (nE1.mpsO 0).form = 2
+    ∧ observe nE1.h 0 = observe nE.h 0 ∧ closed nE.h 0 = true ∧ closed nE.h 1 = true
+    ∧ aliases nE1.h 0 2 = false ∧ shares nE1.h 0 2 = true
+    ∧ (mpsCopy true nE1 0).2 = .ok 1 ∧ closedMps nE2 1 = true ∧ obsMps nE2 0 = obsMps nE1 0 ∧ nE2.tlist 2 = [4, 5] := by
+  decide +kernel
+
+/-- an in-place write into a block of the copy's stored tensor changes the copy and not the original;
+`set_B` on the copy leaves the original alone; `get_B(copy=False)` is the stored tensor, `get_B(copy=True)` a new one -/
+example : obsMps { nE2 with h := step nE2.h (.inplace 4 { wblocks := [(0, 9)] }) } 0 = obsMps nE1 0
+    ∧ obsMps { nE2 with h := step nE2.h (.inplace 4 { wblocks := [(0, 9)] }) } 1 ≠ obsMps nE2 1
+    ∧ obsMps (setB true nE2 1 3 0 (some (some 2, some 0)) {}).1 0 = obsMps nE2 0
+    ∧ obsMps (setB true nE2 1 3 0 (some (some 2, some 0)) {}).1 1 ≠ obsMps nE2 1
+    ∧ (getB true nE2 0 (-1) none false false).2 = .ok 3 ∧ (getB true nE2 0 5 none true false).2 = .ok 6
+    ∧ (getB true nE2 0 0 (some (some 2, some 0)) false false).2 = .ok 7
+    ∧ (obsMps (mpsEnlarge nE2 0 2).1 0).B.length = 4 ∧ obsMps (mpsEnlarge nE2 0 2).1 1 = obsMps nE2 1
+    ∧ (mpsEnlarge nE2 0 1).2 = .err 1 ∧ (mpsRoll nE2 0 1).2 = .none_ := by
+  decide +kernel
+
+/-- error branches of the constructor: no sites, no tensors, wrong number of forms, unknown `bc`, too few singular
+values, a missing label, wrong number of tensors, values failing `test_sanity` — nothing is created -/
+example : (mpsInit true nE [] 0 0 2 (.one 11) [] true).2 = .err 2 ∧ (mpsInit true { nE with tl := [[]] } [7] 0 0 2 (.one 11) [] true).2 = .err 1
+    ∧ (mpsInit true nE [7, 7, 7] 0 0 2 (.list 0) [] true).2 = .err 1 ∧ (mpsInit true nE [7, 7] 0 0 3 (.one 11) [] true).2 = .err 4
+    ∧ (mpsInit true nE [7, 7] 0 0 1 (.one 11) [] true).2 = .ok 0 ∧ (mpsInit true { nE with sl := [[some 0]] } [7, 7] 0 0 2 (.one 11) [] true).2 = .err 2
+    ∧ (mpsInit true nE [7, 7] 0 0 2 (.one 11) [{ ok := false }] true).2 = .err 5 ∧ (mpsInit true nE [7] 0 0 2 (.one 11) [] true).2 = .err 1
+    ∧ (mpsInit true nE [7, 7] 0 0 2 (.one 11) [] false).2 = .err 1
+    ∧ (mpsInit true nE [7, 7] 0 0 3 (.one 11) [] true).1.mps = [] := by
+  decide +kernel
+
+/-- **Why `MPO.copy()` needs its own lists** (the unrepaired `copy.copy`: same `IdL` / `IdR` / `_W` list objects): an
+assignment to an entry of the copy's `IdL`, or `set_W` on the copy, changes the original — with own lists it does not. -/
+theorem C03_mpo_shared_lists_counterexample :
+    ∃ (n : Net) (H : Ref), closedMpo n H = true
+      ∧ obsMpo (editId (mpoCopy n H false).1 n.mpo.length true 0 5).1 H ≠ obsMpo n H
+      ∧ obsMpo (setW (mpoCopy n H false).1 n.mpo.length 0 1).1 H ≠ obsMpo n H
+      ∧ obsMpo (editId (mpoCopy n H true).1 n.mpo.length true 0 5).1 H = obsMpo n H :=
+  ⟨nM1, 0, by decide +kernel, by decide +kernel, by decide +kernel, by decide +kernel⟩
+
+/-- the MPO constructor on the concrete net: own `IdL` list (a copy of the caller's), `IdR` from a scalar; editing the
+caller's list afterwards does not change the MPO; error branches -/
+example : (mpoInit true nM [7, 7] 0 2 (.list 0) (.scalar 2) true).2 = .ok 0 ∧ closedMpo nM1 0 = true
+    ∧ (obsMpo nM1 0).IdL = [1, 1, 1] ∧ (obsMpo nM1 0).IdR = [2, 2, 2] ∧ (nM1.mpoO 0).IdL = 2
+    ∧ obsMpo { nM1 with vl := nM1.vl.set 0 [9, 9, 9] } 0 = obsMpo nM1 0
+    ∧ (mpoInit true nM [7] 0 2 (.list 0) .none_ true).2 = .err 1 ∧ (mpoInit true nM [7, 7, 7] 0 2 .none_ .none_ true).2 = .err 2
+    ∧ (mpoInit true nM [7] 0 2 .none_ .none_ true).2 = .ok 0 ∧ (mpoInit true nM [7, 7] 0 3 .none_ .none_ true).2 = .err 1
+    ∧ getIdLR nM1 0 5 true = .ok 1 ∧ getIdLR nM1 0 (-3) false = .ok 2
+    ∧ closedMpo nM2 1 = true ∧ obsMpo nM2 1 = obsMpo nM1 0 := by
+  decide +kernel
+
+/-- **`MPO.sort_legcharges()` footprint.** The method builds NEW tensors (`transpose` = deep copy, `sort_legcharge`) and
+a NEW `_W` list, and re-assigns the entries of its EXISTING `IdL` / `IdR` lists in place. Hence: every tensor that existed
+— the old `W`s included, which other MPOs (a shallow `copy()`) may still hold — is unchanged; every MPS and every other
+MPO that does not hold the very `IdL` / `IdR` list objects of `H` is unchanged. -/
+theorem C03_mpo_sort_footprint (cy : Bool) (n : Net) (H : Ref) (hs : List SortHint) (perms : List (List Nat)) :
+    let n' := (mpoSort cy n H hs perms).1
+    (∀ r, closed n.h r = true → observe n'.h r = observe n.h r)
+      ∧ (∀ p, closedMps n p = true → (n.mpsO p).form ≠ (n.mpoO H).IdL → (n.mpsO p).form ≠ (n.mpoO H).IdR →
+          (n.mpsO p).sites ≠ (n.mpoO H).IdL → (n.mpsO p).sites ≠ (n.mpoO H).IdR → obsMps n' p = obsMps n p)
+      ∧ (∀ K, closedMpo n K = true → K ≠ H → (n.mpoO K).IdL ≠ (n.mpoO H).IdL → (n.mpoO K).IdL ≠ (n.mpoO H).IdR →
+          (n.mpoO K).IdR ≠ (n.mpoO H).IdL → (n.mpoO K).IdR ≠ (n.mpoO H).IdR → (n.mpoO K).sites ≠ (n.mpoO H).IdL →
+          (n.mpoO K).sites ≠ (n.mpoO H).IdR → obsMpo n' K = obsMpo n K) := by
+  have F := sortTensors_frame cy (n.tlist (n.mpoO H).W) n.h hs
+  have vget : ∀ x, x ≠ (n.mpoO H).IdL → x ≠ (n.mpoO H).IdR → (mpoSort cy n H hs perms).1.vlist x = n.vlist x := by
+    intro x h1 h2
+    simp only [mpoSort, Net.vlist, List.getElem?_set_ne (Ne.symm h2), List.getElem?_set_ne (Ne.symm h1)]
+  refine ⟨fun r hc => (F.obs r hc).1, ?_, ?_⟩
+  · intro p hc f1 f2 s1 s2
+    obtain ⟨c1, c2, c3, c4, c5, c6, c7⟩ := closedMps_parts hc
+    refine obsMps_congr p rfl ?_ rfl (vget _ f1 f2) (vget _ s1 s2) (fun _ _ => rfl) (fun b hb => (F.obs b (c6 b hb)).1)
+    simp only [mpoSort, Net.tlist, get_append_old _ _ _ c2]
+  · intro K hc hK l1 l2 r1 r2 s1 s2
+    obtain ⟨c1, c2, c3, c4, c5, c6⟩ := closedMpo_parts hc
+    refine obsMpo_congr K ?_ ?_ (vget _ l1 l2) (vget _ r1 r2) (vget _ s1 s2) (fun b hb => (F.obs b (c6 b hb)).1)
+    · simp only [mpoSort, Net.mpoO, List.getElem?_set_ne (Ne.symm hK)]
+    · simp only [mpoSort, Net.tlist, get_append_old _ _ _ c2]
+
+/-- … so `H.copy().sort_legcharges()` leaves `H` unchanged (the witness of the repaired defect: with shared lists `H.IdL` /
+`H.IdR` were permuted while `H._W` stayed), and `H.sort_legcharges()` leaves the copy unchanged — the copy keeps the old
+tensors and the old indices. -/
+theorem C03_mpo_copy_sort_independent (cy : Bool) (n : Net) (H : Ref) (hc : closedMpo n H = true) (hs : List SortHint)
+    (perms : List (List Nat)) :
+    obsMpo (mpoSort cy (mpoCopy n H).1 n.mpo.length hs perms).1 H = obsMpo n H
+      ∧ obsMpo (mpoSort cy (mpoCopy n H).1 H hs perms).1 n.mpo.length = obsMpo n H := by
+  obtain ⟨o1, cl1, _, _, _⟩ := C03_mpo_copy_independent n H hc
+  obtain ⟨c1, c2, c3, c4, c5, c6⟩ := closedMpo_parts hc
+  have x := mpoCopy_next n H true
+  obtain ⟨oH, cH⟩ := x.mpoObs H hc
+  have eH : (mpoCopy n H).1.mpoO H = n.mpoO H := by simp only [Net.mpoO, x.mpo H c1]
+  have eH' : (mpoCopy n H).1.mpoO n.mpo.length
+      = MpoObj.mk n.tl.length (n.vl.length + 1) (n.vl.length + 2) n.vl.length (n.mpoO H).bc (n.mpoO H).dtype := by
+    simp [mpoCopy, Net.mpoO]
+  have hne : H ≠ n.mpo.length := Nat.ne_of_lt c1
+  constructor
+  · rw [← oH]
+    apply (C03_mpo_sort_footprint cy (mpoCopy n H).1 n.mpo.length hs perms).2.2 H cH hne <;> rw [eH, eH'] <;>
+      first | exact (ne_of_eq_lt1 rfl (by assumption)).symm | exact (ne_of_eq_lt2 rfl (by assumption)).symm
+  · rw [← o1]
+    apply (C03_mpo_sort_footprint cy (mpoCopy n H).1 H hs perms).2.2 n.mpo.length cl1 hne.symm <;> rw [eH, eH'] <;>
+      first | exact ne_of_eq_lt1 rfl (by assumption) | exact ne_of_eq_lt2 rfl (by assumption) | exact ne_of_eq_lt rfl (by assumption)
